@@ -738,14 +738,14 @@ def pack_typed_dict(spec: ValueSpec) -> Expression:
             packer = PackerRegistry.get(
                 spec.copy(
                     type=annotations[key],
-                    expression=f"value['{key}']",
+                    expression=f"value[{key!r}]",
                     could_be_none=True,
                     owner=spec.type,
                 )
             )
-            lines.append(f"d['{key}'] = {packer}")
+            lines.append(f"d[{key!r}] = {packer}")
         for key in sorted(optional_keys, key=all_keys.index):
-            lines.append(f"key_value = value.get('{key}', MISSING)")
+            lines.append(f"key_value = value.get({key!r}, MISSING)")
             with lines.indent("if key_value is not MISSING:"):
                 packer = PackerRegistry.get(
                     spec.copy(
@@ -755,7 +755,7 @@ def pack_typed_dict(spec: ValueSpec) -> Expression:
                         owner=spec.type,
                     )
                 )
-                lines.append(f"d['{key}'] = {packer}")
+                lines.append(f"d[{key!r}] = {packer}")
         lines.append("return d")
     lines.append(
         f"setattr({spec.cls_attrs_name}, '{method_name}', {method_name})"
